@@ -189,11 +189,12 @@ impl World {
         "ok".to_owned()
     }
 
-    /// have descriptors and tasks returned to the idle baseline (waits up to 3 s for the last closes to land)
+    /// have descriptors and tasks returned to the idle baseline (waits up to 8 s for the last closes to land: a quic
+    /// stream that is being closed waits for the peer to have read it to the end)
     pub fn fd_check(&self) -> String {
         let Some(base) = *self.baseline.lock().unwrap() else { return "bad-op".to_owned() };
         let mut now = self.usage();
-        for _ in 0..60 {
+        for _ in 0..160 {
             if now.0 <= base.0 && now.1 <= base.1 {
                 return "baseline".to_owned();
             }
